@@ -98,8 +98,15 @@ impl Client {
         {
             Ok(record) => {
                 debug!("Got scratchpad for {scratch_key:?}");
-                try_deserialize_record::<Scratchpad>(&record)
-                    .map_err(|_| VaultError::CouldNotDeserializeVaultScratchPad(scratch_address))?
+                let pad = try_deserialize_record::<Scratchpad>(&record)
+                    .map_err(|_| VaultError::CouldNotDeserializeVaultScratchPad(scratch_address))?;
+                // only a pad owned by the requested key and signed by it is authentic
+                if pad.owner() != &client_pk || !pad.is_valid() {
+                    return Err(VaultError::CouldNotDeserializeVaultScratchPad(
+                        scratch_address,
+                    ));
+                }
+                pad
             }
             Err(NetworkError::GetRecordError(GetRecordError::SplitRecord { result_map })) => {
                 debug!("Got multiple scratchpads for {scratch_key:?}");
@@ -108,6 +115,9 @@ impl Client {
                     .map(|(record, _)| try_deserialize_record::<Scratchpad>(record))
                     .collect::<Result<Vec<_>, _>>()
                     .map_err(|_| VaultError::CouldNotDeserializeVaultScratchPad(scratch_address))?;
+
+                // discard unsigned, forged or foreign versions before looking at counters
+                pads.retain(|pad| pad.owner() == &client_pk && pad.is_valid());
 
                 // take the latest versions
                 pads.sort_by_key(|s| s.count());
